@@ -267,6 +267,14 @@ OPS = {
                                                           detached=set(n[:1]))),
     '_dbus_list_pop_first': ((), lambda n, d, a: dict(seq=list(zip(n, d))[1:], ret=d[0] if n else 0, freed=set(n[:1]))),
     '_dbus_list_pop_last': ((), lambda n, d, a: dict(seq=list(zip(n, d))[:-1], ret=d[-1] if n else 0, freed=set(n[-1:]))),
+    '_dbus_list_append_link': (('newlink',), lambda n, d, a: dict(seq=_ins(n, d, len(n), 'dn'), ret=None)),
+    '_dbus_list_prepend_link': (('newlink',), lambda n, d, a: dict(seq=_ins(n, d, 0, 'dn'), ret=None)),
+    '_dbus_list_insert_before_link': (('link0', 'newlink'), lambda n, d, a: dict(
+        seq=_ins(n, d, len(n) if a[0] == 0 else n.index(a[0]), 'dn'), ret=None)),
+    '_dbus_list_insert_after_link': (('link0', 'newlink'), lambda n, d, a: dict(
+        seq=_ins(n, d, 0 if a[0] == 0 else n.index(a[0]) + 1, 'dn'), ret=None)),
+    '_dbus_list_unlink': (('link',), lambda n, d, a: dict(
+        seq=[x for x in zip(n, d) if x[0] != a[0]], ret=None, detached={a[0]})),
     '_dbus_list_get_length': ((), lambda n, d, a: dict(seq=list(zip(n, d)), ret=len(n))),
     '_dbus_list_length_is_one': ((), lambda n, d, a: dict(seq=list(zip(n, d)), ret=int(len(n) == 1))),
 }
@@ -286,6 +294,8 @@ def arg_choices(kind, nodes):
         return list(nodes)
     if kind == 'link0':
         return [0] + list(nodes)
+    if kind == 'newlink':
+        return ['new0']
     raise AssertionError(kind)
 
 
@@ -304,10 +314,14 @@ def check(prog, r):
                 combos = [c + [x] for c in combos for x in arg_choices(kd, nodes)]
             if 'link' in kinds and not nodes:
                 continue
+            if not nodes and 'link0' in kinds and name == '_dbus_list_insert_before_link':
+                pass
             for args in combos:
                 for oom in ((False, True) if any(k == 'data' for k in kinds) and name in (
                         '_dbus_list_append', '_dbus_list_prepend', '_dbus_list_insert_after') else (False,)):
                     nodes, heap = build(datas)
+                    if 'newlink' in kinds:
+                        heap['new0'] = {'next': 0, 'prev': 0, 'data': 'dn'}      # a link allocated beforehand
                     m = Machine(prog, heap, {'L': nodes[0] if nodes else 0}, oom=oom)
                     want = model(nodes, list(datas), args)
                     if oom:
